@@ -236,6 +236,12 @@ package redis
 //@ ensures {C20} span_depth == old(span_depth)
 //@ ensures {C08} conn.authrized && !old(conn.authrized) ==> authed
 //@ ensures {C08} old(authed) ==> authed
+// Connection-scoped state changes only through SELECT and AUTH. Not checked for the seven commands that re-enter the dispatcher with a
+// literal command name (HEXISTS HKEYS HLEN HSTRLEN HVALS STRLEN SUBSTR): the dynamic call in executeCommand is only known by the generic
+// contract, which cannot say which executor was looked up.
+//@ ensures_except HEXISTS,HKEYS,HLEN,HSTRLEN,HVALS,STRLEN,SUBSTR {C13} err != nil ==> conn.id == old(conn.id)
+//@ ensures_except SELECT,HEXISTS,HKEYS,HLEN,HSTRLEN,HVALS,STRLEN,SUBSTR {C13} conn.id == old(conn.id)
+//@ ensures_except AUTH,HEXISTS,HKEYS,HLEN,HSTRLEN,HVALS,STRLEN,SUBSTR {C13,C08} conn.authrized == old(conn.authrized)
 
 //@ func (*Server).executeCommand
 //@ requires srvOK(server) && conn != nil && args != nil && conn.Context != nil && span_depth >= 0 && root_open == 1
@@ -649,6 +655,7 @@ package redis
 //@ ensures {C09} err == nil ==> result0 != nil
 //@ ensures {C09} err == nil && old(config.TLSConfig) == nil ==> result0.ClientAuth == tls.RequireAndVerifyClientCert && result0.ClientCAs != nil && result0.MinVersion >= tls.VersionTLS12
 //@ ensures {C09} err != nil ==> result0 == nil
+//@ ensures {C09} err == nil && old(config.TLSConfig) == nil ==> pool_own[result0.ClientCAs]
 
 // ---------------------------------------------------------------- accept loops
 
